@@ -12,6 +12,9 @@ fn main() {
     let args = Args::parse();
     match args.sub.as_str() {
         "c23" => c23::run(&args),
+        "c24" => c24::run(&args),
+        "c22" => c22::run(&args),
+        "c21" => c21::run(&args),
         other => {
             eprintln!("unknown subcommand {other}");
             std::process::exit(2);
@@ -152,6 +155,594 @@ mod c23 {
                 Err(p) => (vec![], Some(p)),
             };
             out.emit(&Obs { case: c.case, via: c.via.clone(), paths: c.paths.clone(), kept, panic, limits: hooks::prune_limits() });
+        }
+        out.finish();
+    }
+}
+
+/// Concretisation of the named addresses of specs/socket/PathSelect.tla: the first two letters give
+/// the kind (v4, v6, rl = relay, cu = custom transport), the third an index.
+fn named_addr(name: &str) -> VAddr {
+    let idx = (name.as_bytes()[2] - b'a') as u16 + 1;
+    match &name[..2] {
+        "v4" => VAddr::Ip(SocketAddr::V4(SocketAddrV4::new(Ipv4Addr::new(192, 0, 2, idx as u8), 4000 + idx))),
+        "v6" => VAddr::Ip(SocketAddr::V6(SocketAddrV6::new(Ipv6Addr::new(0x2001, 0xdb8, 0, 0, 0, 0, 0, idx), 6000 + idx, 0, 0))),
+        "rl" => VAddr::Relay(format!("https://relay{idx}.verif.test").parse().expect("relay url"), endpoint_id(9)),
+        "cu" => VAddr::Custom(CustomAddr::from_parts(7, &[idx as u8, 1, 2, 3])),
+        other => panic!("unknown address kind {other}"),
+    }
+}
+
+/// C24: run the real BiasedRttPathSelector::select (and RemoteStateActor::select_path's glue) on the
+/// cases enumerated by TLC from specs/socket/PathSelect.tla.
+mod c24 {
+    use std::{collections::HashMap, time::Duration};
+
+    use super::*;
+
+    #[derive(Deserialize)]
+    struct Cand {
+        addr: String,
+        rtt: u64,
+    }
+    #[derive(Deserialize)]
+    struct Case {
+        case: u64,
+        cs: Vec<Cand>,
+        cur: String,
+        /// nanoseconds per model time unit
+        unit_ns: u64,
+        /// the rtt value that stands for "stats cannot be read"
+        nostats: u64,
+    }
+    #[derive(Serialize)]
+    struct Obs {
+        case: u64,
+        /// "keep" or an address name
+        out: String,
+        /// selected path after select_path() with that selector output ("none" if there is none)
+        applied: String,
+        /// selected path after select_path() on an actor without connections (default selector)
+        applied_empty: String,
+        panic: Option<String>,
+    }
+
+    fn exec(c: &Case) -> (String, String, String) {
+        let mut names: HashMap<VAddr, String> = HashMap::new();
+        let mut name_of = |n: &str| {
+            let a = named_addr(n);
+            names.insert(a.clone(), n.to_string());
+            a
+        };
+        let cands: Vec<(VAddr, Option<Duration>)> = c
+            .cs
+            .iter()
+            .map(|x| (name_of(&x.addr), if x.rtt == c.nostats { None } else { Some(Duration::from_nanos(x.rtt * c.unit_ns)) }))
+            .collect();
+        let cur = if c.cur == "none" { None } else { Some(name_of(&c.cur)) };
+        let back = |a: Option<VAddr>, none: &str| match a {
+            None => none.to_string(),
+            Some(a) => names.get(&a).cloned().unwrap_or_else(|| "UNKNOWN".to_string()),
+        };
+        let picked = hooks::biased_rtt_select(cur.as_ref(), &cands);
+        let applied = hooks::select_path_step(cur.as_ref(), Some(picked.as_ref()));
+        let applied_empty = hooks::select_path_step(cur.as_ref(), None);
+        (back(picked, "keep"), back(applied, "none"), back(applied_empty, "none"))
+    }
+
+    pub fn run(args: &Args) {
+        let cases: Vec<Case> = read_ndjson(&args.path("in"));
+        let mut out = NdjsonOut::create(&args.path("out"));
+        for c in &cases {
+            let obs = match vh::io::catch(|| exec(c)) {
+                Ok((o, a, e)) => Obs { case: c.case, out: o, applied: a, applied_empty: e, panic: None },
+                Err(p) => Obs { case: c.case, out: String::new(), applied: String::new(), applied_empty: String::new(), panic: Some(p) },
+            };
+            out.emit(&obs);
+        }
+        out.finish();
+    }
+}
+
+/// A lookup service whose result streams are fed by the harness: every `resolve` call opens a new
+/// stream; items are pushed and the stream is ended on command.
+mod scripted {
+    use std::sync::{Arc, Mutex};
+
+    use iroh::address_lookup::{AddressLookup, Error as LookupError, Item};
+    use iroh::endpoint_info::{EndpointData, EndpointInfo};
+    use iroh_base::{EndpointId, TransportAddr};
+    use n0_future::boxed::BoxStream;
+    use tokio::sync::mpsc;
+
+    type Tx = mpsc::UnboundedSender<Result<Item, LookupError>>;
+
+    #[derive(Debug, Clone, Default)]
+    pub struct Scripted {
+        /// (remote, sender) of every resolve call, in call order; `None` once ended by the harness
+        calls: Arc<Mutex<Vec<(EndpointId, Option<Tx>)>>>,
+    }
+
+    impl AddressLookup for Scripted {
+        fn resolve(&self, endpoint_id: EndpointId) -> Option<BoxStream<Result<Item, LookupError>>> {
+            let (tx, rx) = mpsc::unbounded_channel();
+            self.calls.lock().unwrap().push((endpoint_id, Some(tx)));
+            let s = futures_util::stream::unfold(rx, |mut rx| async move { rx.recv().await.map(|x| (x, rx)) });
+            Some(Box::pin(s))
+        }
+    }
+
+    impl Scripted {
+        /// Is a stream for `id` open (started by the actor, not ended by us, still held by the actor)?
+        pub fn running(&self, id: &EndpointId) -> bool {
+            self.calls.lock().unwrap().iter().any(|(r, tx)| r == id && tx.as_ref().is_some_and(|t| !t.is_closed()))
+        }
+        pub fn push_item(&self, id: &EndpointId, addrs: Vec<TransportAddr>) -> bool {
+            let g = self.calls.lock().unwrap();
+            for (r, tx) in g.iter().rev() {
+                if r == id {
+                    if let Some(tx) = tx {
+                        let item = Item::new(EndpointInfo::from_parts(*id, EndpointData::new(addrs)), "verif", None);
+                        return tx.send(Ok(item)).is_ok();
+                    }
+                }
+            }
+            false
+        }
+        /// Ends the newest open stream for `id`.
+        pub fn end(&self, id: &EndpointId) -> bool {
+            let mut g = self.calls.lock().unwrap();
+            for (r, tx) in g.iter_mut().rev() {
+                if r == id && tx.is_some() {
+                    let open = tx.as_ref().is_some_and(|t| !t.is_closed());
+                    *tx = None;
+                    return open;
+                }
+            }
+            false
+        }
+        pub fn end_all(&self) {
+            for (_, tx) in self.calls.lock().unwrap().iter_mut() {
+                *tx = None;
+            }
+        }
+    }
+}
+
+async fn settle() {
+    for _ in 0..64 {
+        tokio::task::yield_now().await;
+    }
+}
+
+fn reply_name(r: hooks::VReply) -> &'static str {
+    match r {
+        hooks::VReply::Pending => "pending",
+        hooks::VReply::Ok => "ok",
+        hooks::VReply::ErrNoResults => "noresults",
+        hooks::VReply::ErrNoService => "noservice",
+        hooks::VReply::ErrOther => "err_other",
+        hooks::VReply::Dropped => "dropped",
+    }
+}
+
+/// C22: replay histories of specs/socket/PathState.tla on the real RemotePathState ("state") and on a
+/// real RemoteStateActor behind a RemoteMap with a scripted lookup service ("actor").
+mod c22 {
+    use std::time::Duration;
+
+    use iroh::address_lookup::AddressLookupServices;
+    use iroh_base::{EndpointAddr, TransportAddr};
+
+    use super::*;
+    use hooks::{VLookupEnd, VRemotePathState, VResolveRx};
+
+    #[derive(Deserialize)]
+    struct Step {
+        op: String,
+        addrs: Vec<u64>,
+        addr: u64,
+        how: String,
+    }
+    #[derive(Deserialize)]
+    struct Behaviour {
+        case: u64,
+        level: String,
+        services: bool,
+        /// real addresses per model address (state level)
+        scale: u64,
+        /// model addresses above this number are relay addresses
+        nonrelay: u64,
+        steps: Vec<Step>,
+    }
+    #[derive(Serialize, Default)]
+    struct Ans {
+        id: u64,
+        res: String,
+    }
+    #[derive(Serialize, Default)]
+    struct StepObs {
+        answers: Vec<Ans>,
+        empty: bool,
+        npending: usize,
+        lookup_running: bool,
+        note: String,
+        /// state level: number of paths per class after the step [open, unknown, unusable, inactive, relay]
+        counts: [usize; 5],
+    }
+    #[derive(Serialize)]
+    struct Obs {
+        case: u64,
+        steps: Vec<StepObs>,
+        panic: Option<String>,
+    }
+
+    fn block(b: &Behaviour, a: u64) -> Vec<VAddr> {
+        if a > b.nonrelay {
+            vec![addr_for(400 + a, true)]
+        } else {
+            (0..b.scale).map(|j| addr_for(a * 100 + j, false)).collect()
+        }
+    }
+
+    fn poll_new(rxs: &mut Vec<(u64, Option<VResolveRx>)>) -> Vec<Ans> {
+        let mut out = vec![];
+        for (id, rx) in rxs.iter_mut() {
+            if let Some(r) = rx {
+                let v = r.poll();
+                if v != hooks::VReply::Pending {
+                    out.push(Ans { id: *id, res: reply_name(v).to_string() });
+                    *rx = None;
+                }
+            }
+        }
+        out
+    }
+
+    async fn state_level(b: &Behaviour) -> Vec<StepObs> {
+        let mut st = VRemotePathState::new();
+        let mut rxs: Vec<(u64, Option<VResolveRx>)> = vec![];
+        let mut out = vec![];
+        for s in &b.steps {
+            let all = |set: &Vec<u64>| set.iter().flat_map(|a| block(b, *a)).collect::<Vec<_>>();
+            match s.op.as_str() {
+                "resolve" => {
+                    // State::handle_msg_resolve_remote: insert_multiple, then resolve_remote
+                    st.insert_multiple(&all(&s.addrs));
+                    let rx = st.resolve_remote();
+                    rxs.push((rxs.len() as u64 + 1, Some(rx)));
+                }
+                "item" => st.insert_multiple(&all(&s.addrs)),
+                "end" => st.address_lookup_finished(match s.how.as_str() {
+                    "ok" => VLookupEnd::Ok,
+                    "noresults" => VLookupEnd::NoResults,
+                    "noservice" => VLookupEnd::NoService,
+                    other => panic!("unknown end {other}"),
+                }),
+                "open" => {
+                    for a in block(b, s.addr) {
+                        st.insert_open_path(&a);
+                    }
+                }
+                "abandon" => {
+                    tokio::time::advance(Duration::from_secs(1)).await;
+                    for a in block(b, s.addr) {
+                        st.abandoned_path(&a);
+                    }
+                }
+                "select" | "deselect" => {}
+                other => panic!("unknown op {other}"),
+            }
+            let mut counts = [0usize; 5];
+            for (a, status) in st.snapshot() {
+                let k = match (matches!(a, VAddr::Relay(..)), status) {
+                    (true, _) => 4,
+                    (false, hooks::VPathStatus::Open) => 0,
+                    (false, hooks::VPathStatus::Unknown) => 1,
+                    (false, hooks::VPathStatus::Unusable) => 2,
+                    (false, hooks::VPathStatus::Inactive(_)) => 3,
+                };
+                counts[k] += 1;
+            }
+            out.push(StepObs { answers: poll_new(&mut rxs), empty: st.is_empty(), npending: st.pending_len(), lookup_running: false, note: String::new(), counts });
+        }
+        out
+    }
+
+    fn transport(a: u64, b: &Behaviour) -> TransportAddr {
+        if a > b.nonrelay {
+            TransportAddr::Relay(format!("https://relay{a}.verif.test").parse().expect("url"))
+        } else {
+            TransportAddr::Ip(SocketAddr::V4(SocketAddrV4::new(Ipv4Addr::new(10, 2, 0, a as u8), 7000 + a as u16)))
+        }
+    }
+
+    async fn actor_level(b: &Behaviour) -> Vec<StepObs> {
+        let services = AddressLookupServices::default();
+        let script = scripted::Scripted::default();
+        if b.services {
+            services.add(script.clone());
+        }
+        let mut map = hooks::VRemoteMap::new(services);
+        let remote = endpoint_id(1);
+        let mut rxs: Vec<(u64, Option<VResolveRx>)> = vec![];
+        let mut out = vec![];
+        for s in &b.steps {
+            let mut note = String::new();
+            match s.op.as_str() {
+                "resolve" => {
+                    let addrs: Vec<TransportAddr> = s.addrs.iter().map(|a| transport(*a, b)).collect();
+                    let rx = map.resolve_remote(EndpointAddr::from_parts(remote, addrs)).await;
+                    rxs.push((rxs.len() as u64 + 1, Some(rx)));
+                }
+                "item" => {
+                    let addrs: Vec<TransportAddr> = s.addrs.iter().map(|a| transport(*a, b)).collect();
+                    if !script.push_item(&remote, addrs) {
+                        note = "no lookup stream to push the item into".into();
+                    }
+                }
+                "end" => {
+                    if s.how != "noservice" && !script.end(&remote) {
+                        note = "no lookup stream to end".into();
+                    }
+                }
+                other => panic!("op {other} cannot be driven at actor level"),
+            }
+            settle().await;
+            out.push(StepObs {
+                answers: poll_new(&mut rxs),
+                empty: false,
+                npending: rxs.iter().filter(|(_, r)| r.is_some()).count(),
+                lookup_running: script.running(&remote),
+                note,
+                counts: [0; 5],
+            });
+        }
+        out
+    }
+
+    pub fn run(args: &Args) {
+        let cases: Vec<Behaviour> = read_ndjson(&args.path("in"));
+        let mut out = NdjsonOut::create(&args.path("out"));
+        for b in &cases {
+            let r = vh::io::catch(|| {
+                let rt = tokio::runtime::Builder::new_current_thread().enable_time().start_paused(true).build().unwrap();
+                rt.block_on(async {
+                    match b.level.as_str() {
+                        "state" => state_level(b).await,
+                        "actor" => actor_level(b).await,
+                        other => panic!("unknown level {other}"),
+                    }
+                })
+            });
+            match r {
+                Ok(steps) => out.emit(&Obs { case: b.case, steps, panic: None }),
+                Err(p) => out.emit(&Obs { case: b.case, steps: vec![], panic: Some(p) }),
+            }
+        }
+        out.finish();
+    }
+}
+
+/// C21: drive a real RemoteMap (and its RemoteStateActors) with scripted operations under tokio's
+/// paused clock; the event log (hook events + harness events, one sequence) is the trace that
+/// specs/socket/Trace_RemoteMap.tla validates.
+mod c21 {
+    use std::{collections::HashMap, time::Duration};
+
+    use iroh::address_lookup::AddressLookupServices;
+    use iroh_base::{EndpointAddr, TransportAddr};
+    use iroh_dns::verif;
+    use serde_json::{Value, json};
+
+    use super::*;
+    use hooks::{VInfoRx, VResolveRx, VSender};
+
+    #[derive(Deserialize)]
+    struct Op {
+        op: String,
+        #[serde(default)]
+        r: u64,
+        #[serde(default)]
+        tag: u64,
+        #[serde(default)]
+        ms: u64,
+    }
+    #[derive(Deserialize)]
+    struct Script {
+        case: u64,
+        /// "none": no lookup service configured; "scripted": a harness-fed service
+        services: String,
+        ops: Vec<Op>,
+    }
+    #[derive(Serialize)]
+    struct Obs {
+        case: u64,
+        events: Vec<Value>,
+        panic: Option<String>,
+        hung: bool,
+    }
+
+    enum Rx {
+        Resolve(VResolveRx),
+        Info(VInfoRx),
+    }
+
+    fn hev(label: &str, fields: &[(&str, String)]) {
+        verif::event(label, fields);
+    }
+
+    struct Driver {
+        map: hooks::VRemoteMap,
+        script: scripted::Scripted,
+        ids: Vec<EndpointId>,
+        next_m: u64,
+        rxs: Vec<(u64, Option<Rx>)>,
+        held: Option<(VSender, u64)>,
+    }
+
+    impl Driver {
+        fn poll_replies(&mut self) {
+            for (m, rx) in self.rxs.iter_mut() {
+                let res = match rx {
+                    None => continue,
+                    Some(Rx::Resolve(r)) => match r.poll() {
+                        hooks::VReply::Pending => continue,
+                        v => reply_name(v).to_string(),
+                    },
+                    Some(Rx::Info(r)) => match r.poll() {
+                        Ok(None) => continue,
+                        Ok(Some(_)) => "ok".to_string(),
+                        Err(()) => "dropped".to_string(),
+                    },
+                };
+                *rx = None;
+                hev("reply", &[("m", m.to_string()), ("res", res)]);
+            }
+        }
+
+        async fn step(&mut self, op: &Op) {
+            let rid = |r: u64, ids: &Vec<EndpointId>| ids[(r as usize - 1) % ids.len()];
+            match op.op.as_str() {
+                "resolve" => {
+                    let id = rid(op.r, &self.ids);
+                    self.next_m += 1;
+                    let m = self.next_m;
+                    let addrs: Vec<TransportAddr> = if op.tag > 0 {
+                        vec![TransportAddr::Ip(SocketAddr::V4(SocketAddrV4::new(Ipv4Addr::LOCALHOST, 10_000 + m as u16)))]
+                    } else {
+                        vec![]
+                    };
+                    let tag = if op.tag > 0 { 10_000 + m } else { 0 };
+                    hev("sa_begin", &[("r", format!("r{}", op.r)), ("m", m.to_string()), ("kind", "resolve".into()), ("tag", tag.to_string())]);
+                    let rx = self.map.resolve_remote(EndpointAddr::from_parts(id, addrs)).await;
+                    hev("sa_end", &[("m", m.to_string())]);
+                    self.rxs.push((m, Some(Rx::Resolve(rx))));
+                }
+                "ts_lookup" => {
+                    let id = rid(op.r, &self.ids);
+                    match self.map.sender(&id) {
+                        Some(s) => {
+                            self.next_m += 1;
+                            self.held = Some((s, self.next_m));
+                            hev("ts_lookup", &[("r", format!("r{}", op.r)), ("m", self.next_m.to_string()), ("found", "1".into())]);
+                        }
+                        None => hev("ts_lookup", &[("r", format!("r{}", op.r)), ("m", "0".into()), ("found", "0".into())]),
+                    }
+                }
+                "ts_send" => {
+                    if let Some((s, m)) = self.held.take() {
+                        match s.try_remote_info() {
+                            Ok(rx) => {
+                                hev("ts_send", &[("m", m.to_string()), ("res", "ok".into())]);
+                                self.rxs.push((m, Some(Rx::Info(rx))));
+                            }
+                            Err(why) => hev("ts_send", &[("m", m.to_string()), ("res", why.to_string())]),
+                        }
+                    }
+                }
+                "advance" => {
+                    tokio::time::advance(Duration::from_millis(op.ms)).await;
+                }
+                "settle" => settle().await,
+                "cleanup" => {
+                    let r = self.map.poll_cleanup();
+                    hev("cl_poll", &[("res", r.map(|x| x.to_string()).unwrap_or_else(|| "none".into()))]);
+                }
+                "arm" => verif::arm(hooks::PAUSE_BEFORE_INBOX_CLOSE, 1),
+                "release" => {
+                    if verif::arrived(hooks::PAUSE_BEFORE_INBOX_CLOSE) > 0 {
+                        verif::release(hooks::PAUSE_BEFORE_INBOX_CLOSE, 1);
+                    }
+                }
+                "lookup_item" => {
+                    let id = rid(op.r, &self.ids);
+                    let a = TransportAddr::Ip(SocketAddr::V4(SocketAddrV4::new(Ipv4Addr::new(10, 9, 0, op.r as u8), 9000)));
+                    self.script.push_item(&id, vec![a]);
+                }
+                "lookup_end" => {
+                    let id = rid(op.r, &self.ids);
+                    self.script.end(&id);
+                }
+                other => panic!("unknown op {other}"),
+            }
+            self.poll_replies();
+        }
+
+        /// Let everything finish: no held pause, no hanging lookup, all tasks joined.
+        async fn quiesce(&mut self) {
+            verif::release(hooks::PAUSE_BEFORE_INBOX_CLOSE, 1_000_000);
+            for _ in 0..4 {
+                settle().await;
+                self.script.end_all();
+                settle().await;
+                while self.map.poll_cleanup().is_some() {}
+                settle().await;
+                self.poll_replies();
+            }
+        }
+    }
+
+    async fn exec(s: &Script) -> bool {
+        let services = AddressLookupServices::default();
+        let script = scripted::Scripted::default();
+        if s.services == "scripted" {
+            services.add(script.clone());
+        }
+        let ids = vec![endpoint_id(1), endpoint_id(2)];
+        let mut d = Driver { map: hooks::VRemoteMap::new(services), script, ids, next_m: 0, rxs: vec![], held: None };
+        for op in &s.ops {
+            // a hang (e.g. send_to_actor never returning) shows as a virtual-time timeout
+            if tokio::time::timeout(Duration::from_secs(100_000), d.step(op)).await.is_err() {
+                return true;
+            }
+        }
+        if tokio::time::timeout(Duration::from_secs(100_000), d.quiesce()).await.is_err() {
+            return true;
+        }
+        hev("end", &[]);
+        false
+    }
+
+    fn normalise(evs: Vec<verif::Event>, names: &HashMap<String, String>) -> Vec<Value> {
+        evs.into_iter()
+            .map(|e| {
+                let mut o = serde_json::Map::new();
+                o.insert("ev".into(), json!(e.label.trim_start_matches("rm.")));
+                for (k, v) in e.fields {
+                    let v = if k == "remote" { names.get(&v).cloned().unwrap_or(v) } else { v };
+                    let k = if k == "remote" { "r".to_string() } else { k };
+                    match v.parse::<u64>() {
+                        Ok(n) if k != "detail" && k != "res" => o.insert(k, json!(n)),
+                        _ => o.insert(k, json!(v)),
+                    };
+                }
+                Value::Object(o)
+            })
+            .collect()
+    }
+
+    pub fn run(args: &Args) {
+        let cases: Vec<Script> = read_ndjson(&args.path("in"));
+        let mut out = NdjsonOut::create(&args.path("out"));
+        let names: HashMap<String, String> = (1..=2u64).map(|i| (endpoint_id(i).to_string(), format!("r{i}"))).collect();
+        for s in &cases {
+            verif::reset();
+            verif::clear_gates();
+            hooks::reset_actor_instances();
+            verif::record(true);
+            let r = vh::io::catch(|| {
+                let rt = tokio::runtime::Builder::new_current_thread().enable_time().start_paused(true).build().unwrap();
+                rt.block_on(exec(s))
+                // dropping the runtime aborts the actors of this script
+            });
+            verif::record(false);
+            let events = normalise(verif::take_events(), &names);
+            verif::release(hooks::PAUSE_BEFORE_INBOX_CLOSE, 1_000_000);
+            match r {
+                Ok(hung) => out.emit(&Obs { case: s.case, events, panic: None, hung }),
+                Err(p) => out.emit(&Obs { case: s.case, events, panic: Some(p), hung: false }),
+            }
         }
         out.finish();
     }
